@@ -230,6 +230,31 @@ def forward_checks(rep, fnd, pid, tier):
                                       float((zp - z).abs().max()) if tuple(zp.shape) == tuple(z.shape) else float("nan"))),
                                   {"api": name, "check": "scat_reuse", "cfg": cfg})
                     continue
+                # values for sizes that need the extension: the layer on x is the layer on the explicitly extended image (ScatLayer:
+                # last row / column repeated, corner included; ScatLayerj2: cat(x[:before], x, x[-after:]) along each axis, module
+                # Scat: Before / After) - and extended images have even sizes / multiples of 8, whose values the reference decides
+                def ext_(t, ax, layer_name):
+                    r_ = t.shape[ax]
+                    if layer_name == "ScatLayer":
+                        return torch.cat((t, t.narrow(ax, r_ - 1, 1)), dim=ax) if r_ % 2 else t
+                    rem = r_ % 8
+                    if rem == 0:
+                        return t
+                    bf, af = (8 - rem) // 2, (9 - rem) // 2
+                    return torch.cat((t.narrow(ax, 0, min(bf, r_)), t, t.narrow(ax, r_ - min(af, r_), min(af, r_))), dim=ax)
+                xe_ = ext_(ext_(x, 2, name), 3, name)
+                if tuple(xe_.shape) != tuple(x.shape) and not (name == "ScatLayerj2" and min(H, W) < 3):
+                    try:
+                        ze = (pw.ScatLayer() if name == "ScatLayer" else pw.ScatLayerj2())(xe_)
+                        if tuple(ze.shape) != tuple(z.shape) or float((ze - z).abs().max()) > 1e-12 * (float(ze.abs().max()) + 1.0):
+                            rep.violation("%s on a %dx%d input differs from the layer on the explicitly extended %dx%d image (max difference %.3g)"
+                                          % (name, H, W, xe_.shape[-2], xe_.shape[-1], float((ze - z).abs().max()) if tuple(ze.shape) == tuple(z.shape) else float("nan")),
+                                          {"api": name, "check": "scat_extension_values", "cfg": cfg})
+                            continue
+                    except Exception as e:   # noqa
+                        rep.violation("%s raised %r on the explicitly extended %dx%d image" % (name, e, xe_.shape[-2], xe_.shape[-1]),
+                                      {"api": name, "check": "scat_extension_values", "cfg": cfg})
+                        continue
                 if tuple(z.shape) != want or not (float(z[:, first_mag:].min()) >= 0) or not bool(torch.isfinite(z).all()):
                     rep.violation("%s on a %dx%d input: shape %s (documented %s) or a negative magnitude" % (name, H, W, tuple(z.shape), want),
                                   {"api": name, "check": "scat_shape", "cfg": cfg})
